@@ -5,6 +5,8 @@ import KmipModel.ExpectSkel
 import KmipGen.Schema
 import KmipGen.Skeleton
 import KmipProofs.WireGen
+import KmipProofs.WireDV
+import KmipProps.C20
 import KmipProps.C01
 /-
   C14, generated obligations: the positions at which the client model reads the decoded Response are the fields
@@ -171,6 +173,86 @@ theorem GenC14_e2e_over_any_transport (ver : Nat × Nat) (op : Nat) (p : DynV) (
   obtain ⟨rfl, _, _⟩ := h1
   obtain ⟨rfl, _, _⟩ := h3
   exact ⟨_, x1, _, x2, e1, h2, e2, h4⟩
+
+/-! ### Discover Versions end to end: C20 ∘ C14 ∘ C07 ∘ C01 ∘ C06 -/
+open Kmip.Discover in
+theorem wf_dvRequestItem (offer : List Version) (h : ∀ v ∈ offer, v.1 < two32 ∧ v.2 < two32) :
+    WFv (.struct KmipGen.sd_RequestBatchItem) (.struct [.one (.enum 30), .one (.bytes []), .dyn (dvReq offer), .one wireZExt]) := by
+  simp only [dvReq, WFv, WFflds, WFfv, WFmany, KmipGen.sd_RequestBatchItem, KmipGen.sd_DiscoverVersionsRequest, SD.fields,
+    Fld.ignored, Fld.required, Fld.ty, Fld.tag, Fld.skip, Fld.slice]
+  refine ⟨⟨trivial, by decide, Or.inr ⟨trivial, by decide⟩⟩, ⟨trivial, by decide, Or.inr ⟨trivial, by decide⟩⟩,
+    ⟨trivial, by decide, ?disp, ⟨⟨trivial, by decide, fun h => by simp at h, wf_verVals offer h⟩, trivial⟩⟩,
+    ⟨trivial, by decide, Or.inl ⟨trivial, rfl⟩⟩, trivial⟩
+  exact ⟨0, _, .one (.enum 30), .enum 30, .mk (.enum 30) true (.struct KmipGen.sd_DiscoverVersionsRequest), rfl, rfl, rfl, rfl, rfl, rfl⟩
+
+open Kmip.Discover in
+theorem wf_dvResponseItem (vs : List Version) (h : ∀ v ∈ vs, v.1 < two32 ∧ v.2 < two32) (p : DynV) :
+    WFv (.struct KmipGen.sd_ResponseBatchItem)
+      (respItem wireZExt { op := 30, uid := [], payload := p } (.success (dvResp vs))) := by
+  simp only [respItem, dvResp, WFv, WFflds, WFfv, WFmany, KmipGen.sd_ResponseBatchItem, KmipGen.sd_DiscoverVersionsResponse, SD.fields,
+    Fld.ignored, Fld.required, Fld.ty, Fld.tag, Fld.skip, Fld.slice]
+  refine ⟨⟨trivial, by decide, Or.inr ⟨trivial, by decide⟩⟩, ⟨trivial, by decide, Or.inr ⟨trivial, by decide⟩⟩,
+    ⟨trivial, by decide, Or.inr ⟨trivial, by decide⟩⟩, ⟨trivial, by decide, Or.inr ⟨trivial, by decide⟩⟩,
+    ⟨trivial, by decide, Or.inr ⟨trivial, by decide⟩⟩, ⟨trivial, by decide, Or.inr ⟨trivial, by decide⟩⟩,
+    ⟨trivial, by decide, ?disp, ⟨⟨trivial, by decide, fun h => by simp at h, wf_verVals vs h⟩, trivial⟩⟩,
+    ⟨trivial, by decide, Or.inl ⟨trivial, rfl⟩⟩, trivial⟩
+  exact ⟨0, _, .one (.enum 30), .enum 30, .mk (.enum 30) true (.struct KmipGen.sd_DiscoverVersionsResponse), rfl, rfl, rfl, rfl, rfl, rfl⟩
+
+open Kmip.Discover in
+theorem dvAnswer_bounded (sup offer : List Version) (hsup : ∀ v ∈ sup, v.1 < two32 ∧ v.2 < two32) :
+    ∀ v ∈ dvAnswer sup offer, v.1 < two32 ∧ v.2 < two32 := by
+  intro v hv
+  cases offer with
+  | nil => exact hsup v hv
+  | cons o rest =>
+    simp only [dvAnswer, matchLoop_eq_filter, List.mem_filter, decide_eq_true_eq] at hv
+    exact hsup v hv.2
+
+open Kmip.Discover in
+/-- `Client.DiscoverVersions(offer)` against this package's own Server whose SupportedVersions are `sup`, over any transport:
+    the request the Client builds goes through Encode, any fragmentation, the Server's Decoder and handleBatch to the built-in
+    handler; its answer goes back the same way; and what Send hands to DiscoverVersions is the Discover Versions response
+    payload holding EXACTLY the supported versions of the offer, in offer order (the whole list for an empty offer).
+    Composes C20 (the handler), C07 (the response built), C14 (what Send returns), C01 (Decode ∘ Encode) and C06 (transport). -/
+theorem GenC14_discover_versions_over_any_transport (ver : Nat × Nat) (sup offer : List Version) (clock : Nat)
+    (rb sb : Bytes) (srcIn srcOut : Io.Src) (hv1 : ver.1 < two32) (hv2 : ver.2 < two32) (hclock : clock < two64)
+    (hoffer : ∀ v ∈ offer, v.1 < two32 ∧ v.2 < two32) (hsup : ∀ v ∈ sup, v.1 < two32 ∧ v.2 < two32)
+    (hsq : (canonTop KmipGen.sd_Request (mkRequest wireZExt ver 30 (dvReq offer))).Small = true)
+    (heq : encodeSD KmipGen.sd_Request (mkRequest wireZExt ver 30 (dvReq offer)) = .ok rb)
+    (hsr : (canonTop KmipGen.sd_Response (respVal wireZNonce wireZExt clock (dvHandler sup) (sendView ver 30 (dvReq offer)))).Small = true)
+    (her : encodeSD KmipGen.sd_Response (respVal wireZNonce wireZExt clock (dvHandler sup) (sendView ver 30 (dvReq offer))) = .ok sb)
+    (hiIn : (Io.Stack.top srcIn).Inv) (hfIn : srcIn.flat = rb) (hiOut : (Io.Stack.top srcOut).Inv) (hfOut : srcOut.flat = sb) :
+    ∃ rv x1 cv x2, Stk.decodeSrc KmipGen.sd_Request srcIn = .ok (rv, rb.length, x1) ∧
+      handleBatch wireZNonce wireZExt clock true (dvHandler sup) rv =
+        some (respVal wireZNonce wireZExt clock (dvHandler sup) (sendView ver 30 (dvReq offer))) ∧
+      Stk.decodeSrc KmipGen.sd_Response srcOut = .ok (cv, sb.length, x2) ∧
+      Client.send true true 30 (Client.respView cv) =
+        .payload (dvResp (if offer = [] then sup else offer.filter (fun v => decide (v ∈ sup)))) := by
+  have hH : dvHandler sup 0 { op := 30, uid := [], payload := normDyn (dvReq offer) } = .success (dvResp (dvAnswer sup offer)) := by
+    simp only [dvHandler, normDyn_dvReq, offerOf_dvReq, if_true]
+  obtain ⟨rv, x1, cv, x2, h1, h2, h3, h4⟩ := GenC14_e2e_over_any_transport ver 30 (dvReq offer) clock (dvHandler sup) rb sb srcIn srcOut
+    hv1 hv2 hclock (wf_dvRequestItem offer hoffer) hsq heq
+    (by rw [hH]; exact wf_dvResponseItem _ (dvAnswer_bounded sup offer hsup) _) hsr her hiIn hfIn hiOut hfOut
+  refine ⟨rv, x1, cv, x2, h1, h2, h3, ?_⟩
+  rw [h4, hH]
+  simp only [normDyn_dvResp]
+  cases offer with
+  | nil => simp [dvAnswer]
+  | cons o rest => simp [dvAnswer, matchLoop_eq_filter]
+
+open Kmip.Discover in
+/-- non-vacuity: for the offer [1.2, 9.9, 1.4] against the default list, both messages are small and encodable (the hypotheses
+    of the theorem above hold), and the answer is [1.2, 1.4] -/
+theorem GenC14_example_dv_hypotheses :
+    (canonTop KmipGen.sd_Request (mkRequest wireZExt (1, 4) 30 (dvReq [(1, 2), (9, 9), (1, 4)]))).Small = true ∧
+    (∃ rb, encodeSD KmipGen.sd_Request (mkRequest wireZExt (1, 4) 30 (dvReq [(1, 2), (9, 9), (1, 4)])) = .ok rb) ∧
+    (canonTop KmipGen.sd_Response (respVal wireZNonce wireZExt 1000000000 (dvHandler defaultVersions)
+      (sendView (1, 4) 30 (dvReq [(1, 2), (9, 9), (1, 4)])))).Small = true ∧
+    (∃ sb, encodeSD KmipGen.sd_Response (respVal wireZNonce wireZExt 1000000000 (dvHandler defaultVersions)
+      (sendView (1, 4) 30 (dvReq [(1, 2), (9, 9), (1, 4)]))) = .ok sb) ∧
+    (if [(1, 2), (9, 9), (1, 4)] = ([] : List Version) then defaultVersions
+      else [(1, 2), (9, 9), (1, 4)].filter (fun v => decide (v ∈ defaultVersions))) = [(1, 2), (1, 4)] := by
+  refine ⟨by decide +kernel, ⟨_, rfl⟩, by decide +kernel, ⟨_, rfl⟩, by decide⟩
 
 /-! ### non-vacuity of the hypotheses -/
 def exActPayloadV : Val := .struct [.one (.text [97])]
